@@ -372,7 +372,6 @@ def run(ctx):
                     spec_ok, sdetail = False, f"case={f} coq={sup} python={supported_py(f)}"
                 if r["outcome"] == "unbuildable":
                     continue
-                ctx.count_case(f, r["outcome"] != "Results" or any(f[k] for k in BOOLS) or f["eff"] != "none")
                 if m != r["outcome"] and corr_ok:
                     corr_ok, detail = False, f"case={f} impl={r} model={m}"
                     ctx.extra["first_disagreement"] = {"case": f, "impl": r, "model": m}
@@ -380,6 +379,9 @@ def run(ctx):
         except (common.CoqEvalError, ValueError, KeyError, TypeError) as ex:
             corr_ok = spec_ok = False
             detail = sdetail = str(ex)
+    for f, r in zip(cases, impl):  # counted whether or not the model could be built
+        if r["outcome"] != "unbuildable":
+            ctx.count_case(f, r["outcome"] != "Results" or any(f[k] for k in BOOLS) or f["eff"] != "none")
     ctx.obligation("correspondence:Model.Accepts.decide==Backend(seq,config).run() outcome class (Results or exception "
                    "class), every buildable feature combination", corr_ok, detail, kind="correspondence")
     ctx.obligation("correspondence:Model.Accepts.supported==specification table used by the falsifier", spec_ok,
